@@ -31,11 +31,21 @@ def _libelefun():
 
 def memo_harness(args):
     """the real constant_memo applied to a native true-floor routine (c = 2/3), started in the given cache state"""
-    f0 = lambda prec: cfix(prec)                       # noqa: E731
+    class Injected(Exception):
+        pass
+
+    def f0(prec):
+        if args.get('_callee_raises'):
+            raise Injected()                           # the fixed-point routine is aborted
+        return cfix(prec)
     g = _libelefun().constant_memo(f0)
     f0.memo_prec, f0.memo_val = args['m_prec'], args['m_val']
-    r = g(args['prec'])
-    return dict(result=r, m_prec_out=f0.memo_prec, m_val_out=f0.memo_val)
+    try:
+        r = g(args['prec'])
+        exc = False
+    except Injected:
+        r, exc = None, True
+    return dict(result=r, m_prec_out=f0.memo_prec, m_val_out=f0.memo_val, _exc=exc)
 
 
 def const_harness(args):
@@ -49,11 +59,12 @@ class _:
     shapes = dict(prec='int', kwargs=('const', {}))
     result = 'int'
     default_props = ['C17']
-    all_props = ['C17']
+    all_props = ['C17', 'C33']
     native_harness = memo_harness
     search = 'memo_inputs'
     closure_model = {'f': dict(fields=dict(memo_prec='int', memo_val='int'),
-                               call=fixed_call, call_requires=fixed_call_requires)}
+                               call=fixed_call, call_requires=fixed_call_requires, may_raise=True)}
+    props = dict(exc_inv=['C17', 'C33'])
     state = dict(m_prec=('f', 'memo_prec'), m_val=('f', 'memo_val'))
 
     def requires(prec, m_prec, m_val):
@@ -66,6 +77,10 @@ class _:
 
     def ensures_inv(m_prec_out, m_val_out):
         return m_prec_out >= 0 and m_val_out == cfix(m_prec_out)
+
+    def exc_ensures_inv(m_prec, m_val, m_prec_out, m_val_out):
+        # C33: a computation aborted by an exception inside the fixed-point routine leaves the cache as it was
+        return m_prec_out == m_prec and m_val_out == m_val
 
     def ensures_grows(m_prec, m_prec_out, prec):
         return m_prec_out >= m_prec and m_prec_out >= prec
